@@ -56,3 +56,4 @@ EQUIVALENT.append(('delimiter sniffed with next(f)', U, "    with path.open('r')
 BREAKING.append(('array codec records the dtype kind character only', U, "dtype=str(obj.dtype), shape=obj.shape)", "dtype=obj.dtype.char, shape=obj.shape)", ['C18.T1']))
 EQUIVALENT.append(('array codec records dtype.str', U, "dtype=str(obj.dtype), shape=obj.shape)", "dtype=obj.dtype.str, shape=obj.shape)"))
 BREAKING.append(('read_tsv does not undo the quoting', U, "        reader = csv.reader(f, delimiter=delimiter)\n        # Skip the header.", "        reader = csv.reader(f, delimiter=delimiter, quoting=csv.QUOTE_NONE)\n        # Skip the header.", ['C18.T3']))
+BREAKING.append(('keys intified by the object hook (every nesting level)', U, "        return _decode_qbytearray(d['__qbytearray__'])\n    return d\n", "        return _decode_qbytearray(d['__qbytearray__'])\n    return _intify_keys(d) if isinstance(d, dict) else d\n", ['C18.T2']))
